@@ -52,6 +52,28 @@ CORPUS = {
         node(5), node(6, [('a', inp(3))], body={'kind': 'label', 'v': 'l0'}),
         node(7, [('a', {'kind': 'oneof', 'cands': [4, 5]})]),
         node(8, [('a', {'kind': 'switch', 'decider': 6, 'cases': [['l0', 7]], 'name': 'sw0'}), ('b', inp(3))])]),
+    # one-of [A, B]; A consumes a switch whose selected case K depends on a failing node J: K is never computed, nothing in
+    # A's reduced DAG carries an error — the run hung in every schedule (fix 3319e5b)
+    'P19_switch_case_dependency_fails_inside_candidate': spec([
+        node(0), node(1, body={'kind': 'label', 'v': 'l0'}), node(2, fails=FAIL), node(3, [('a', inp(2))]),
+        node(4, [('a', {'kind': 'switch', 'decider': 1, 'cases': [['l0', 3]], 'name': 'sw0'})]), node(5),
+        node(6, [('a', {'kind': 'oneof', 'cands': [4, 5]})])]),
+    # a one-of nested in the case sub-DAG of a switch inside a candidate of another one-of (fix 272425c)
+    'P20_oneof_in_case_of_switch_in_candidate': spec([
+        node(0), node(1, [('a', inp(0))], fails=FAIL), node(2, [('a', inp(1))]),
+        node(3, [('a', inp(0))], body={'kind': 'label', 'v': 'l0'}),
+        node(4, [('a', inp(0)), ('b', {'kind': 'switch', 'decider': 3, 'cases': [['l0', 2]], 'name': 'sw0'})]),
+        node(5, [('a', inp(0)), ('b', {'kind': 'oneof', 'cands': [4]})]),
+        node(6, [('a', {'kind': 'switch', 'decider': 3, 'cases': [['l0', 5]], 'name': 'sw1'})]),
+        node(7, [('a', {'kind': 'oneof', 'cands': [6]})])]),
+    # a decision node that fails inside a one-of scope and also decides a switch of the main pipeline (fix 9505195)
+    'P21_failed_decider_shared_with_main_switch': spec([
+        node(0), node(1, [('a', inp(0))], fails=FAIL), node(2, body={'kind': 'label', 'v': 'l0'}),
+        node(3, [('a', {'kind': 'switch', 'decider': 2, 'cases': [['l0', 1]], 'name': 'sw0'})], body={'kind': 'label', 'v': 'l0'}),
+        node(4, [('a', inp(2))]), node(5, [('a', inp(4))]), node(6, [('a', inp(3))]),
+        node(7, [('a', {'kind': 'oneof', 'cands': [6, 5]})]),
+        node(8, [('a', inp(7)), ('b', {'kind': 'switch', 'decider': 3, 'cases': [['l0', 7]], 'name': 'sw1'})]),
+        node(9, [('a', inp(2)), ('b', inp(8))])]),
 }
 
 
@@ -97,6 +119,17 @@ MOTIFS = {
     'M5_switch_inside_candidate': spec([
         node(0), node(1, body=LAB), node(2), node(3, [('a', sw(1, [('l0', 2)]))]), node(4),
         node(5, [('a', one(3, 4))])]),
+    # … whose label matches no case: the candidate fails, the fallback is used (repo fix 23ee3cd)
+    'M5b_switch_inside_candidate_no_case': spec([
+        node(0), node(1, body={'kind': 'label', 'v': 'unknown'}), node(2), node(3, [('a', sw(1, [('l0', 2)]))]), node(4),
+        node(5, [('a', one(3, 4))])]),
+    # … in the second candidate, below an intermediate node, the case node shared with the output
+    'M5c_switch_below_second_candidate': spec([
+        node(0), node(1, body=LAB), node(2), node(3, [('a', sw(1, [('l0', 2)]))]), node(4, [('a', inp(3))]),
+        node(5, fails=FAIL), node(6, [('a', one(5, 4)), ('b', inp(2))])]),
+    'M5d_switch_below_second_candidate_no_case': spec([
+        node(0), node(1, body={'kind': 'label', 'v': 'unknown'}), node(2), node(3, [('a', sw(1, [('l0', 2)]))]),
+        node(4, [('a', inp(3))]), node(5, fails=FAIL), node(6, [('a', one(5, 4)), ('b', inp(1))])]),
     # a recurrent destination with a consumer next to another branch
     'M6_rec_then_join': spec([
         node(0), node(1, has_additional=True), node(2, [('a', inp(1))], is_rec=True, recur_k=2),
